@@ -61,3 +61,16 @@ def declare(db):
     db.opaque_isinst[("Any", "float")] = "uf"
     db.opaque_isinst[("Any", "dict")] = "uf"
     db.opaque_isinst[("Any", "list")] = "uf"
+    assume_method(db, "NodeQueue", "pop", returns="u:XmlNode", pure=True, mutates=True)  # balanced start/end events assumed
+    assume_method(db, "XmlNode", "bind", returns="bool", pure=True, raises=["ParserError", "ConverterError", "XmlContextError"])
+    field(db, "Types", "__len__", "int")
+    db.opaque_isinst[("Any", "Callable")] = "uf"
+    field(db, "XmlContext", "class_type", "u:ClassType")
+    field(db, "ClassType", "derived_keys", "u:Any")
+    field(db, "ClassType", "any_keys", "u:Any")
+    field(db, "ClassType", "derived_element", "u:type")
+    field(db, "ClassType", "any_element", "u:type")
+    assume_method(db, "XmlContext", "build", returns="u:XmlMeta", pure=True, raises=["XmlContextError"])
+    assume_method(db, "XmlContext", "fetch", returns="u:XmlMeta", pure=True, raises=["XmlContextError"])
+    assume_method(db, "XmlContext", "find_type", returns="u:type|None", pure=True)
+    assume_method(db, "ClassType", "is_model", returns="bool", pure=True)
